@@ -101,8 +101,10 @@ theorem removeHash_removes (sri : Integrity) (cpath : Path) (hc : contentPath ca
 
 /-! ### remove_fully -/
 
-/-- A full removal aims only at the content path of the key's *current* entry and at the key's
-bucket file. -/
+/-- A full removal leaves every path outside the content area, other than the key's bucket file,
+as it was.  (This statement exempts the WHOLE content area.  That within it only the content path
+of the entry the lookup found can change — healthy and under every fault plan — is
+`C09x.removeFully_changes_only`.) -/
 theorem removeFully_targets (key : Bytes) (q : Path) (hb : q ≠ bucketPath cfg cache key)
     (hcontent : ¬ InArea cache dContent q) (fs : FS) :
     (run env (removeFully cfg cache key) fs).2.1.get q = fs.get q := by
